@@ -97,19 +97,40 @@ static int guarded(const struct op *o, int idx)
 struct outcome { uint8_t out[1 << 14]; size_t n; uint64_t trace, final; };
 static struct outcome ref_o, run_o;
 
+/* ---- contention twin: while call A waits in mutex->lock (its k-th invocation) another party, which holds the mutex, completes a whole API call B.
+ * That schedule must be indistinguishable from "B, then A" run one after the other: same return values, output, handler trace and final state. ---- */
+static long cont_at = -1; static struct op cont_op; static int cont_ret; static bool cont_done;
+static void on_lock_wait(long k)
+{
+        if (k != cont_at || cont_done) return;
+        cont_done = true;
+        if (world_hash() != h_call) viol("C16", "state-touched-before-lock", "%s modified parser state before taking the lock", OPN[ops[cur_op].type]);
+        long l = locks_in_call, u = unlocks_in_call; bool hu = have_unlock; uint64_t hul = h_unlock; int ph = PHASE;
+        PHASE = 0;
+        cont_ret = do_op(&cont_op);
+        PHASE = ph;
+        if (MX_DEPTH != 0) { viol("C16", "lock-not-released", "%s returned with the lock still held", OPN[cont_op.type]); MX_DEPTH = 0; }
+        locks_in_call = l; unlocks_in_call = u; have_unlock = hu; h_unlock = hul;
+        h_call = world_hash();      /* what A may rely on starts when the mutex is granted */
+}
+
+static int seq_insert_before = -1; static int seq_ret;      /* reference twin of a contended run: the contender's call is made just before call #seq_insert_before */
 static void run_history(long fail_lock, long fail_unlock, int *rets, struct outcome *o)
 {
+        cont_done = false;
         w_load_vars(vars0);
         w_reinit(0);
         INPOS = 0; out_reset(); units_reset(); trace_h = 5; fault_op = -1;
         MX_LOCKS = MX_UNLOCKS = 0; MX_DEPTH = 0; MX_FAIL_LOCK_AT = fail_lock; MX_FAIL_UNLOCK_AT = fail_unlock;
         pr_seed(&HP, CUR_SEED ^ 0x16, (uint64_t)CUR_CASE);
-        POLICY = policy; VPOLICY = vpolicy; ON_LOCK = on_lock;
+        POLICY = policy; VPOLICY = vpolicy; ON_LOCK = on_lock; ON_LOCK_WAIT = cont_at >= 0 ? on_lock_wait : NULL;
         sch_bits(&WS, wbits, sizeof wbits); sch_eager(&RS);
         for (int i = 0; i < nops && !case_failed(); i++) {
                 long l0 = MX_LOCKS, u0 = MX_UNLOCKS;
                 bool lock_fault_here = fail_lock >= 0 && l0 == fail_lock, unlock_fault_here = fail_unlock >= 0 && u0 == fail_unlock;
                 if (lock_fault_here || unlock_fault_here) { fault_op = i; fault_state_class = state_class(); }
+                if (i == seq_insert_before) { seq_ret = guarded(&cont_op, i); fault_op = i; fault_state_class = state_class(); }
+                if (cont_at >= 0 && !cont_done && MX_LOCKS == cont_at) { fault_op = i; fault_state_class = state_class(); }
                 if (lock_fault_here) {
                         uint64_t before = world_hash(); long cbs = N_READ_OK + N_READ_NO + N_WRITE_OK + N_WRITE_NO + N_VCALL[0] + N_VCALL[1]; for (int f = 0; f < 2; f++) for (int k = 0; k < 4; k++) cbs += N_HCALL[f][k];
                         int r = guarded(&ops[i], i);
@@ -217,6 +238,38 @@ void chk_run_case(uint64_t seed, long c, bool is_sweep)
                 else if (run_o.final != ref_o.final) viol("C16", "state-diverges-after-fault", "final parser state differs from the fault-free run after the %s fault in call %d (%s)", kind ? "unlock" : "lock", fault_op, OPN[ops[fault_op].type]);
                 DSET("function_state_fault_cells", (uint64_t)(ops[fault_op].type * 100 + fault_state_class * 2 + kind + 1));
                 if (fault_state_class != 0) nontrivial(hash_u64((uint64_t)(k * 2 + kind), hash_u64((uint64_t)CUR_CASE, CUR_SEED)));
+        }
+        /* contention: every lock call of the history once, with a contender drawn per call */
+        for (long k = 0; k < K && !case_failed(); k++) {
+                unsigned r = rn(100);
+                cont_op.ci = (uint8_t)rn(4); cont_op.arg = (uint8_t)rn(2);
+                cont_op.type = r < 40 ? OP_TRIG : r < 50 ? OP_TRIG_R : r < 60 ? OP_TRIG_T : r < 70 ? OP_HEXIT : r < 80 ? OP_BUSY : r < 88 ? OP_FULL : r < 94 ? OP_HOLD : OP_SERVICE;
+                if (k < nops && ops[k].type == OP_SERVICE && cont_op.type == OP_SERVICE) cont_op.type = OP_TRIG;      /* two concurrent cat_service calls are not a supported use (fault-free, call #k makes lock call #k) */
+                snprintf(note, sizeof note, "contended run: %s(%d,%d) completes while lock call #%ld is waiting", OPN[cont_op.type], cont_op.ci, cont_op.arg, k);
+                CUR_STEP = 0; cont_at = k; seq_insert_before = -1;
+                run_history(-1, -1, ret_run, &run_o);
+                cont_at = -1;
+                if (case_failed()) break;
+                if (!cont_done || fault_op < 0) { viol("C16", "fault-not-reached", "lock call #%ld was not reached in the contended run", k); break; }
+                int at = fault_op, fsc = fault_state_class;
+                int cr = cont_ret;
+                snprintf(note, sizeof note, "sequential twin of the contended run: %s(%d,%d) called just before call %d", OPN[cont_op.type], cont_op.ci, cont_op.arg, at);
+                CUR_STEP = 0; seq_insert_before = at;
+                static int ret_seq[MAXOPS]; static struct outcome seq_o;
+                run_history(-1, -1, ret_seq, &seq_o);
+                seq_insert_before = -1;
+                if (case_failed()) break;
+                CNT("contended_runs");
+                snprintf(note, sizeof note, "contended run: %s(%d,%d) completes while call %d (%s), lock call #%ld, is waiting for the mutex; compared with the sequential order", OPN[cont_op.type], cont_op.ci, cont_op.arg, at, OPN[ops[at].type], k);
+                fault_op = at;
+                if (cr != seq_ret) viol("C16", "contention-changes-result", "the contender %s returned %d, %d when called just before", OPN[cont_op.type], cr, seq_ret);
+                for (int i = 0; i < nops && !case_failed(); i++) if (ret_run[i] != ret_seq[i]) viol("C16", "contention-changes-result", "call %d (%s) returned %d in the contended run and %d in the sequential one", i, OPN[ops[i].type], ret_run[i], ret_seq[i]);
+                if (case_failed()) break;
+                if (run_o.n != seq_o.n || memcmp(run_o.out, seq_o.out, seq_o.n) != 0) viol("C16", "contention-changes-output", "output differs between the contended and the sequential order");
+                else if (run_o.trace != seq_o.trace) viol("C16", "contention-changes-handlers", "handler trace differs between the contended and the sequential order");
+                else if (run_o.final != seq_o.final) viol("C16", "contention-changes-state", "final parser state differs between the contended and the sequential order");
+                DSET("waiting_function_contender_cells", (uint64_t)(ops[at].type * 1000 + cont_op.type * 40 + fsc + 1));
+                if (fsc != 0) nontrivial(hash_u64((uint64_t)(k * 2 + 7), hash_u64((uint64_t)CUR_CASE, CUR_SEED ^ 0xC0)));
         }
         if (sample_wanted()) sample_printf("history of %d API calls with %ld lock calls: %ld faulty runs (every lock and every unlock failing once) all equal to the fault-free twin; output %zu bytes", nops, K, 2 * K, ref_o.n);
 }
